@@ -24,7 +24,12 @@ pub fn read_script(path: &std::path::Path) -> String {
             // what this script returns and they are judged like any other returned value
             Err(e) => match container::dump_container_typed(&c) {
                 Ok(l) => l,
-                Err(_) => return Err(if e.starts_with("io:") { "err:io".to_string() } else { format!("err:{}", e) }),
+                Err(_) => {
+                    // an error is an answer; asking again — the same content, the other contents — must
+                    // still terminate (a reader may retry): only termination is observed here
+                    second_pass(&c);
+                    return Err(if e.starts_with("io:") { "err:io".to_string() } else { format!("err:{}", e) });
+                }
             },
         };
         let chk = match c.check() {
@@ -32,12 +37,50 @@ pub fn read_script(path: &std::path::Path) -> String {
             Ok(false) => "false".to_string(),
             Err(e) => format!("err:{}", util::err_kind(&e)),
         };
+        second_pass(&c);
         Ok(format!("ok check={} {}", chk, lines.join(";")))
     });
     match r {
         Ok(Ok(s)) => s,
         Ok(Err(e)) => e,
         Err(p) => p,
+    }
+}
+
+/// read every content of every entry once more, whatever the first pass answered; results are ignored
+/// (errors are fine), only panics and termination matter — a hang is seen by the supervisor's bound
+fn second_pass(c: &jbk::reader::Container) {
+    use jbk::reader::{EntryTrait, Range};
+    let index = match c.get_index_for_name("main") {
+        Ok(Some(i)) => i,
+        _ => return,
+    };
+    let store = match index.get_store(c.get_entry_storage()) {
+        Ok(s) => s,
+        Err(_) => return,
+    };
+    let builder = match jbk::reader::builder::AnyBuilder::new(store, c.get_value_storage().as_ref()) {
+        Ok(b) => b,
+        Err(_) => return,
+    };
+    let n = std::cmp::min(index.count().into_u32(), 4096);
+    for round in 0..2 {
+        for k in 0..n {
+            // second round backwards: the last contents of a cluster after its first ones failed
+            let i = if round == 0 { k } else { n - 1 - k };
+            let addr = match index.get_entry(&builder, jbk::EntryIdx::from(i)) {
+                Ok(Some(e)) => match e.get_value("content") {
+                    Ok(Some(v)) => v.as_content(),
+                    _ => continue,
+                },
+                _ => continue,
+            };
+            if let Ok(Some(jbk::reader::MayMissPack::FOUND(Some(region)))) = c.get_bytes(addr) {
+                let mut v = vec![];
+                use std::io::Read;
+                let _ = region.stream().read_to_end(&mut v);
+            }
+        }
     }
 }
 
